@@ -29,9 +29,10 @@ func slowGoid() int64 {
 	return id
 }
 
+//go:nocheckptr
 func candidates(g unsafe.Pointer, id int64) []uintptr {
 	var c []uintptr
-	for off := uintptr(0); off < 512; off += 8 {
+	for off := uintptr(0); off < 320; off += 8 {
 		if *(*int64)(unsafe.Add(g, off)) == id {
 			c = append(c, off)
 		}
@@ -68,6 +69,8 @@ func init() {
 }
 
 // Goid returns the id of the calling goroutine.
+//
+//go:nocheckptr
 func Goid() int64 {
 	if goidOffset != 0 {
 		return *(*int64)(unsafe.Add(getg(), goidOffset))
